@@ -3,7 +3,7 @@
    Lin/Perm.v.  The operations are the executable models of Lin/Ops.v that the correspondence
    harness runs against the C library. *)
 From Coq Require Import List NArith Arith Lia Bool.
-From M4 Require Import Base.Bits Lin.Mat Lin.MatAlg Lin.Ops Lin.Spec Lin.OpsProofs Lin.Perm.
+From M4 Require Import Base.Bits Lin.Mat Lin.MatAlg Lin.Ops Lin.Spec Lin.OpsProofs Lin.Perm Lin.Combine.
 Import ListNotations.
 Local Open Scope nat_scope.
 
@@ -224,6 +224,33 @@ Theorem C13_gather_short_refuted :
 Proof. exact gather_short_refuted. Qed.
 Print Assumptions C13_gather_short_refuted.
 
+(** * row combination from given word offsets (mzd.h:920 mzd_combine_even_in_place, :994 mzd_combine_even, :1069
+    mzd_combine; models in Lin/Combine.v, run against the library by the C13 check) *)
+Theorem C13_combine_in_place : forall A B ar asb br bsb i j, ar < length (rows A) ->
+  get (combine_in_place A B ar asb br bsb) i j =
+  if (i =? ar) && (64 * asb <=? j) && (j <? nc A)
+  then xorb (get A ar j) (get B br (64 * bsb + (j - 64 * asb))) else get A i j.
+Proof. exact get_combine_in_place. Qed.
+Print Assumptions C13_combine_in_place.
+
+Theorem C13_combine_even : forall C A B cr csb ar asb br bsb i j, cr < length (rows C) ->
+  let n := nc A - 64 * asb in
+  get (combine_even C A B cr csb ar asb br bsb) i j =
+  if (i =? cr) && (64 * csb <=? j) && (j <? 64 * csb + n)
+  then xorb (get A ar (64 * asb + (j - 64 * csb))) (get B br (64 * bsb + (j - 64 * csb))) else get C i j.
+Proof. exact get_combine_even. Qed.
+Print Assumptions C13_combine_even.
+
+Theorem C13_combine_wf : forall A B ar asb br bsb, wf A -> wf (combine_in_place A B ar asb br bsb).
+Proof. exact wf_combine_in_place. Qed.
+Print Assumptions C13_combine_wf.
+
+(** the dispatch of mzd_combine on "same object, same row, same start word" does not change the result *)
+Theorem C13_combine_dispatch : forall C B cr csb br bsb i j, wf C -> cr < nr C -> j < nc C ->
+  get (combine_even C C B cr csb cr csb br bsb) i j = get (combine_in_place C B cr csb br bsb) i j.
+Proof. exact combine_branches_agree. Qed.
+Print Assumptions C13_combine_dispatch.
+
 (** * non-vacuity: a 3 x 70 matrix (two words per row in C) and P = [2;1;2], shorter than 70 *)
 Definition exA : mat :=
   mk 3 70 [1180591620717411303423%N; 590295810358705651717%N; 5%N].
@@ -275,3 +302,7 @@ Example ex_tri : rows (apply_p_right_trans_tri exA exQ) =
     row (fold_left (fun M i => col_swap M i (nth i exQ i)) [2] exA) 1;
     row exA 2 ].
 Proof. vm_compute. reflexivity. Qed.
+Example ex_combine :                     (* row 2 of exA ^= columns 64.. of row 0, placed from column 64 on *)
+  rows (combine_in_place exA exA 2 1 0 1) = [1180591620717411303423%N; 590295810358705651717%N; 1162144876643701751813%N]
+  /\ 2 < length (rows exA).
+Proof. split; [vm_compute; reflexivity | vm_compute; lia]. Qed.
